@@ -176,11 +176,14 @@ def describe_direct(case, obs):
 
 # ------------------------------------------------------------------ end to end: transform_haps on files
 def gen_files(rng, tier):
-    n = 60 if tier == "quick" else 2000
+    n = 80 if tier == "quick" else 2000
     for t in range(n):
         anc_source = rng.choice([None, "POP", "bp"])
+        one_chrom = t % 5 == 0  # a fixed fifth: ancestry from a .bp file over several chromosomes, every haplotype on one of the later ones
+        if one_chrom:
+            anc_source = "bp"
         # with a .bp file often three chromosomes (1, 2, 10), so that the file's chromosome order is not lexicographic
-        c = gen_content(rng, maxs=3, maxv=8, minv=7 if (anc_source == "bp" and rng.random() < 0.5) else 1)
+        c = gen_content(rng, maxs=3, maxv=8, minv=7 if (anc_source == "bp" and (one_chrom or rng.random() < 0.5)) else 1)
         c["anc_source"] = anc_source
         c["fmt_in"] = "pgen" if (c["anc_source"] != "POP" and rng.random() < 0.3) else "vcf.gz"
         c["fmt_out"] = rng.choice([".vcf", ".vcf.gz", ".pgen"])
@@ -203,9 +206,10 @@ def gen_files(rng, tier):
             for h in rng.sample(c["haps"], rng.randint(6, len(c["haps"]) - 1)):
                 h["vars"].append([f"absent{len(c['absent'])}", "A"])
                 c["absent"].append(h["id"])
-        if c["anc_source"] == "bp" and rng.random() < 0.4 and len(c["variants"]) >= 4:
+        if c["anc_source"] == "bp" and (one_chrom or rng.random() < 0.4) and len(c["variants"]) >= 4:
             # every transformed haplotype on one chromosome while the breakpoints (and the genotype file) cover two
-            chrom = rng.choice(["1", "2"])
+            present = sorted({v["chrom"] for v in c["variants"]}, key=lambda x: (len(x), x))
+            chrom = rng.choice(present[1:] or present) if one_chrom else rng.choice(["1", "2"])
             on = {v["id"] for v in c["variants"] if v["chrom"] == chrom}
             kept = []
             for h in c["haps"]:
